@@ -1,7 +1,8 @@
-(* C03/GateReject.v — C03_reject_clean for the repaired reject path (RejectTeardown.step_rt = Model.step followed
-   by the dead-peer teardown of the rejected slot): for EVERY component state, after a reject / error answer that
-   matches a session, that session is out of the indexes and its pool lease is back in the pool. *)
-From OV Require Import Common.Base C03.Model C03.Proofs C03.GateInv C03.GateMain C03.RejectTeardown.
+(* C03/GateReject.v — C03_reject_clean for Model.step (which since c6c869c tears the session down inside the
+   reject answer): for EVERY component state a reject / error answer that matches a session's outstanding request
+   leaves that session out of the indexes with its pool lease back in the pool; and over histories: it stays out
+   until the subscriber's next PADR. *)
+From OV Require Import Common.Base C03.Model C03.Proofs C03.GateInv C03.GateMain.
 
 (* what the reject path must not touch before the teardown runs *)
 Definition keep (m m' : mach) : Prop :=
@@ -66,50 +67,103 @@ Proof.
   destruct (pty (ms m)); try apply keep_refl; apply keep_emit.
 Qed.
 
-Lemma length_set_nth : forall A (l : list A) n x, length (set_nth n x l) = length l.
-Proof. induction l as [|a l IH]; intros [|n] x; cbn; auto. Qed.
 
-(* the dead-peer / PADT teardown of a live session *)
-Lemma dead_step : forall v st i s, nth_error (sl st) i = Some s -> live s = true ->
-  exists s', nth_error (sl (fst (step v st (EvDead i)))) i = Some s' /\ live s' = false /\
-             free (fst (step v st (EvDead i))) = free st + (if alloc_pool s && addr_eqb (cur4 s) APool then 1 else 0).
+(* the pool lease terminate() gives back *)
+Definition lease (s : sess) : nat := if alloc_pool s && addr_eqb (cur4 s) APool then 1 else 0.
+
+(* one reject / error answer, ANY state (repaired variant) *)
+Theorem reject_step_clean : forall v st k a i, vrep v = true -> allowed_of a = false ->
+  find_idx (pend_matches v k) (sl st) 0 = Some i ->
+  exists s s',
+    nth_error (sl st) i = Some s /\ live s = true /\ pend s = Some k /\
+    nth_error (sl (fst (step v st (EvAAA k a)))) i = Some s' /\
+    live s' = false /\ ph s' = PTerminate /\
+    free (fst (step v st (EvAAA k a))) = free st + lease s.
 Proof.
-  intros v st i s Hn Hl. cbn [step]. unfold on_slot. rewrite Hn. cbn [ms]. rewrite Hl. cbn [fst sl free].
-  eexists. split; [apply (nth_set_nth_eq _ _ _ _ _ Hn)|]. destruct s; cbn in *.
-  destruct (in_net ph); cbn; (split; [reflexivity|]); destruct alloc_pool, cur4; cbn; lia.
-Qed.
-(* the reject answer itself: delivered to slot i, leaves liveness, address, lease flag and pool alone *)
-Lemma reject_step : forall v st k a i s, allowed_of a = false ->
-  find_idx (pend_matches v k) (sl st) 0 = Some i -> nth_error (sl st) i = Some s ->
-  exists s1, nth_error (sl (fst (step v st (EvAAA k a)))) i = Some s1 /\
-             live s1 = live s /\ cur4 s1 = cur4 s /\ alloc_pool s1 = alloc_pool s /\
-             free (fst (step v st (EvAAA k a))) = free st.
-Proof.
-  intros v st k a i s Ea Hf Hn. cbn [step]. rewrite Hf, Ea. unfold on_slot. rewrite Hn. cbn [fst sl free].
+  intros v st k a i Hv Ea Hf.
+  destruct (find_idx_spec _ _ _ _ _ Hf) as (s & _ & Hn & Hp). rewrite Nat.sub_0_r in Hn.
+  destruct (aaa_needs_pending v k s Hv Hp) as (Hl & Hpe & _).
+  cbn [step]. rewrite Hf, Ea, Hv. cbn [andb negb]. unfold on_slot. rewrite Hn. cbn [fst sl free].
   destruct (on_auth_denied_keep v i (match a with AAccIp => true | _ => false end)
               (mkM s (nreq st) (free st) (queue st) [])) as (k1 & k2 & k3 & k4).
-  eexists. split; [apply (nth_set_nth_eq _ _ _ _ _ Hn)|]. auto.
+  set (m1 := on_auth_result v i false (match a with AAccIp => true | _ => false end) (mkM s (nreq st) (free st) (queue st) [])) in *.
+  exists s. eexists. split; [reflexivity|]. split; [exact Hl|]. split; [exact Hpe|].
+  split; [apply (nth_set_nth_eq _ _ _ _ _ Hn)|].
+  cbn [ms mfree] in k1, k2, k3, k4. unfold lease. rewrite <- k2, <- k3, <- k4.
+  destruct m1 as [s1 n1 f1 q1 o1]. destruct s1. cbn in *.
+  destruct (in_net ph); cbn; repeat split; destruct alloc_pool, cur4; cbn; lia.
 Qed.
 
-(* C03_reject_clean *)
-Theorem reject_teardown_clean : forall v st k a i,
-  reject_target v st (EvAAA k a) = Some i ->
-  exists s s',
-    nth_error (sl st) i = Some s /\ live s = true /\ pend_matches v k s = true /\ allowed_of a = false /\
-    nth_error (sl (fst (step_rt v st (EvAAA k a)))) i = Some s' /\
-    live s' = false /\
-    free (fst (step_rt v st (EvAAA k a))) =
-      free st + (if alloc_pool s && addr_eqb (cur4 s) APool then 1 else 0).
+(* a session that is out of the indexes stays out until the subscriber's next PADR *)
+Lemma ncp_act_live : forall i n a m, live (ms (ncp_act i n a m)) = live (ms m).
 Proof.
-  intros v st k a i Ht. unfold step_rt. rewrite Ht. unfold reject_target in Ht.
-  destruct (allowed_of a) eqn:Ea; [discriminate|].
-  destruct (find_idx_spec _ _ _ _ _ Ht) as (s & _ & Hn & Hp). rewrite Nat.sub_0_r in Hn.
-  assert (Hl : live s = true).
-  { unfold pend_matches in Hp. apply andb_true_iff in Hp. tauto. }
-  destruct (reject_step v st k a i s Ea Ht Hn) as (s1 & Hn1 & r1 & r2 & r3 & r4).
-  destruct (step v st (EvAAA k a)) as [st1 o1]. cbn [fst] in *.
-  assert (Hl1 : live s1 = true) by congruence.
-  destruct (dead_step v st1 i s1 Hn1 Hl1) as (s' & Hn' & Hd & Hfr).
-  destruct (step v st1 (EvDead i)) as [st2 o2]. cbn [fst] in *.
-  exists s, s'. repeat split; auto. rewrite Hfr, r2, r3, r4. reflexivity.
+  intros i n a [s nn fr q o]. destruct a, n; cbn; try reflexivity; destruct s; cbn;
+    unfold check_open; cbn; repeat match goal with |- context [match ?x with _ => _ end] => destruct x; cbn end; reflexivity.
+Qed.
+Lemma ncp_apply_live : forall i n g m, live (ms (ncp_apply i n g m)) = live (ms m).
+Proof.
+  intros i n g m. unfold ncp_apply. destruct (g (get_ncp n (ms m))) as [f' acts].
+  assert (E : live (ms (upd (set_ncp n f') m)) = live (ms m)) by (destruct m as [s ? ? ? ?]; destruct n, s; reflexivity).
+  rewrite <- E. generalize (upd (set_ncp n f') m). clear. induction acts as [|a acts IH]; intros m; cbn [fold_left]; auto.
+  rewrite IH. apply ncp_act_live.
+Qed.
+Lemma handle_timer_live : forall v i t m, live (ms (handle_timer v i t m)) = live (ms m).
+Proof.
+  intros v i t m. destruct t; cbn [handle_timer].
+  - apply (lcp_apply_keep v i fsm_timeout m).
+  - apply ncp_apply_live. - apply ncp_apply_live.
+  - destruct (ph (ms m)); auto.
+    destruct (10 <=? S (chap_retry (ms m))).
+    + rewrite (proj1 (lcp_apply_keep v i fsm_close _)). destruct m as [s ? ? ? ?]; destruct s; reflexivity.
+    + destruct m as [s ? ? ? ?]; destruct s; reflexivity.
+Qed.
+
+Lemma dead_persists : forall v st e i s, nth_error (sl st) i = Some s -> live s = false -> e <> EvOpen i ->
+  exists s', nth_error (sl (fst (step v st e))) i = Some s' /\ live s' = false.
+Proof.
+  intros v st e i s Hn Hl He.
+  assert (OS : forall j h, (j = i -> live (ms (h (mkM s (nreq st) (free st) (queue st) []))) = false) ->
+               exists s', nth_error (sl (fst (on_slot st j h))) i = Some s' /\ live s' = false).
+  { intros j h Hh. unfold on_slot. destruct (Nat.eq_dec j i) as [E|E].
+    - subst j. rewrite Hn. cbn [fst sl]. eexists. split; [apply (nth_set_nth_eq _ _ _ _ _ Hn)|]. auto.
+    - destruct (nth_error (sl st) j) as [sj|] eqn:Ej; cbn [fst sl]; exists s; split; auto.
+      rewrite nth_set_nth_neq; auto. }
+  destruct e as [j|j f|k a|j t|j|j| ]; cbn [step].
+  - apply OS. intros E. subst j. congruence.
+  - apply OS. intros E. cbn [ms]. rewrite Hl. auto.
+  - destruct (find_idx (pend_matches v k) (sl st) 0) as [j|] eqn:Ef; [|exists s; auto].
+    apply OS. intros E. subst j.
+    destruct (find_idx_spec _ _ _ _ _ Ef) as (sj & _ & Hnj & Hp). rewrite Nat.sub_0_r in Hnj.
+    rewrite Hn in Hnj. inversion Hnj; subst sj. unfold pend_matches in Hp. rewrite Hl in Hp. discriminate.
+  - apply OS. intros E. rewrite handle_timer_live. auto.
+  - apply OS. intros E. cbn [ms]. rewrite Hl. auto.
+  - apply OS. intros E. cbn [ms]. rewrite Hl. auto.
+  - destruct (queue st) as [|[j g] q]; [exists s; auto|].
+    destruct (nth_error (sl st) j) as [sj|]; [destruct (Nat.eqb (gen sj) g)|]; cbn [fst sl]; exists s; auto.
+Qed.
+
+Lemma dead_run : forall v evs st i s, nth_error (sl st) i = Some s -> live s = false ->
+  Forall (fun e => e <> EvOpen i) evs ->
+  exists s', nth_error (sl (fst (run v st evs))) i = Some s' /\ live s' = false.
+Proof.
+  induction evs as [|e r IH]; intros st i s Hn Hl Hf; [exists s; auto|].
+  inversion Hf; subst. rewrite run_cons. cbn [fst].
+  destruct (dead_persists v st e i s Hn Hl H1) as (s1 & Hn1 & Hl1). eapply IH; eauto.
+Qed.
+
+(* C03_reject_clean over histories *)
+Theorem reject_clean_run : forall v pool evs1 k a evs2 i, vrep v = true -> allowed_of a = false ->
+  find_idx (pend_matches v k) (sl (fst (run v (init pool) evs1))) 0 = Some i ->
+  Forall (fun e => e <> EvOpen i) evs2 ->
+  let st1 := fst (run v (init pool) evs1) in
+  let st2 := fst (step v st1 (EvAAA k a)) in
+  exists s s3,
+    nth_error (sl st1) i = Some s /\ live s = true /\ pend s = Some k /\
+    free st2 = free st1 + lease s /\
+    nth_error (sl (fst (run v st2 evs2))) i = Some s3 /\ live s3 = false.
+Proof.
+  intros v pool evs1 k a evs2 i Hv Ea Hf Hall st1 st2.
+  destruct (reject_step_clean v st1 k a i Hv Ea Hf) as (s & s' & h1 & h2 & h3 & h4 & h5 & h6 & h7).
+  destruct (dead_run v evs2 st2 i s' h4 h5 Hall) as (s3 & g1 & g2).
+  exists s, s3. repeat split; auto.
 Qed.
